@@ -55,13 +55,27 @@ func renderVTTPlain(cues []srtCue) []byte {
 	return []byte(b.String())
 }
 
+// programme title of the plain SSA and TTML sources of the conversion matrix ("" = the default); set by suiteConvert only
+var convTitle string
+
 func renderSSAPlain(cues []srtCue) []byte {
 	var b strings.Builder
-	b.WriteString("[Script Info]\nTitle: generated\nScriptType: v4.00\n\n[V4 Styles]\nFormat: Name, Fontname, Fontsize, Bold\nStyle: Default,Arial,20,0\n\n[Events]\nFormat: Marked, Start, End, Style, Name, MarginL, MarginR, MarginV, Effect, Text\n")
+	title := "generated"
+	if convTitle != "" {
+		title = convTitle
+	}
+	b.WriteString("[Script Info]\nTitle: " + title + "\nScriptType: v4.00\n\n[V4 Styles]\nFormat: Name, Fontname, Fontsize, Bold\nStyle: Default,Arial,20,0\n\n[Events]\nFormat: Marked, Start, End, Style, Name, MarginL, MarginR, MarginV, Effect, Text\n")
 	for _, c := range cues {
 		fmt.Fprintf(&b, "Dialogue: Marked=0,%s,%s,Default,,0,0,0,,%s\n", stamp(c.Start, ".", 2, true), stamp(c.End, ".", 2, true), strings.Join(plainLines(c), "\\N"))
 	}
 	return []byte(b.String())
+}
+
+func ttmlPlainMeta() string {
+	if convTitle == "" {
+		return "<metadata/>"
+	}
+	return `<metadata xmlns:ttm="http://www.w3.org/ns/ttml#metadata"><ttm:title>` + xmlEsc(convTitle) + `</ttm:title></metadata>`
 }
 
 func xmlEsc(s string) string {
@@ -74,7 +88,7 @@ func renderTTMLPlain(cues []srtCue, frameRate int) []byte {
 	if frameRate > 0 {
 		fr = fmt.Sprintf(` xmlns:ttp="http://www.w3.org/ns/ttml#parameter" ttp:frameRate="%d"`, frameRate)
 	}
-	b.WriteString(`<?xml version="1.0" encoding="UTF-8"?>` + "\n" + `<tt xmlns="http://www.w3.org/ns/ttml"` + fr + ` xml:lang="en"><head><metadata/></head><body><div>` + "\n")
+	b.WriteString(`<?xml version="1.0" encoding="UTF-8"?>` + "\n" + `<tt xmlns="http://www.w3.org/ns/ttml"` + fr + ` xml:lang="en"><head>` + ttmlPlainMeta() + `</head><body><div>` + "\n")
 	for _, c := range cues {
 		var ls []string
 		for _, l := range plainLines(c) {
@@ -421,7 +435,7 @@ func suiteConvertModel(R *runner, r *rng) {
 }
 
 func suiteConvert(R *runner, r *rng) {
-	R.rule("conversion: all (source, destination) pairs in {srt,ssa,ass,stl,ttml,vtt,ts} x {srt,ssa,ass,stl,ttml,vtt}; sources rendered by the harness's own encoders from ground-truth cue lists (1..5 cues, 1..2 lines, Latin text incl. accented letters; times at the source's resolution) plus styled SRT documents and repository samples; extension in mixed case; every third repetition a crafted list in which a cue with another text starts on a fragment boundary of a longer cue listed after it (then fragment + unfragment), every third a list of 14..24 cues sharing few start instants in shuffled order (then order / fragment / unfragment); 0..4 operations (sync, fragment, unfragment, merge, optimize, order, linear correction) with random parameters through the library, 0..1 operation through the built CLI; the destination file is re-read through the library; oracle: same cues in the same order, times truncated to the destination's unit, same text without white space; unsupported extension -> ErrInvalidExtension, empty list -> ErrNoSubtitlesToWrite; non-trivial = destination format differs from the source format or an operation is applied")
+	R.rule("conversion: all (source, destination) pairs in {srt,ssa,ass,stl,ttml,vtt,ts} x {srt,ssa,ass,stl,ttml,vtt}; sources rendered by the harness's own encoders from ground-truth cue lists (1..5 cues, 1..2 lines, Latin text incl. accented letters; times at the source's resolution; TTML and SSA/ASS sources half of the time with a programme title, of up to 70 bytes with multi-byte characters) plus styled SRT documents and repository samples; extension in mixed case; every third repetition a crafted list in which a cue with another text starts on a fragment boundary of a longer cue listed after it (then fragment + unfragment), every third a list of 14..24 cues sharing few start instants in shuffled order (then order / fragment / unfragment); 0..4 operations (sync, fragment, unfragment, merge, optimize, order, linear correction) with random parameters through the library, 0..1 operation through the built CLI; the destination file is re-read through the library; oracle: same cues in the same order, times truncated to the destination's unit, same text without white space; unsupported extension -> ErrInvalidExtension, empty list -> ErrNoSubtitlesToWrite; non-trivial = destination format differs from the source format or an operation is applied")
 	dir, _ := os.MkdirTemp("", "verif-conv")
 	defer os.RemoveAll(dir)
 	cli := filepath.Join(buildDir, "astisub-cli")
@@ -530,6 +544,12 @@ func suiteConvert(R *runner, r *rng) {
 				var src []byte
 				var err error
 				dstUnit := dstFormats[df].unit
+				// metadata-bearing sources: a programme title, sometimes longer than the 32 bytes an STL header field holds,
+				// with multi-byte characters before and at the cut
+				convTitle = ""
+				if (sf == "ttml" || sf == "ssa" || sf == "ass") && r.chance(1, 2) {
+					convTitle = r.pick("Short title", "Les enfants du paradis - édition restaurée en été", "Ünïcödé títlé thät ïs lönger than thirty-two bytes", "Exactly thirty-two bytes long !!", "Trente et un octets et un accent é", "日本語のタイトルはとても長いです、三十二バイトより")
+				}
 				switch sf {
 				case "srt":
 					d, _ := renderSrt(r, cues)
@@ -559,6 +579,7 @@ func suiteConvert(R *runner, r *rng) {
 						cues[i].End -= base
 					}
 				}
+				convTitle = ""
 				var want []plainCue
 				for _, c := range cues {
 					var ls []string
